@@ -1,0 +1,15 @@
+//go:build verif
+
+package sse
+
+// VerifHook, when set by a verification harness, is called at named points of
+// the handler so that schedules (e.g. "client unregistered before a delivery
+// goroutine runs") can be forced deterministically. It never changes behaviour
+// other than by delaying the calling goroutine.
+var VerifHook func(site string)
+
+func verifYield(site string) {
+	if h := VerifHook; h != nil {
+		h(site)
+	}
+}
